@@ -272,7 +272,10 @@ class CtxEngine(object):
                                       "exit", "start", "stop", "init",
                                       "power_down"][t.draw(14)],),
              ["app_id"], {}, "app"),
-            ("count_cores_in_state", lambda: ("run",), ["app_id"], {}, "app"),
+            ("count_cores_in_state",
+             lambda: (["run", ["run", "sync0"], ("wait",), "idle",
+                       ["pause", "exit", "run"]][t.draw(5)],),
+             ["app_id"], {}, "app"),
             ("load_routing_table_entries",
              lambda: ([RTE({Routes(t.draw(24))}, t.draw(1 << 20),
                            0xffffffff) for _ in range(1 + t.draw(3))],),
@@ -292,7 +295,8 @@ class CtxEngine(object):
             ("write_across_link", lambda: (a(0), t.bytes(4 + 4 * t.draw(3))),
              ["x", "y", "link"], {}, "chip"),
             ("get_iobuf_bytes", lambda: (), ["p", "x", "y"], {}, "chip+vcpu"),
-            ("wait_for_cores_to_reach_state", lambda: ("run", 0),
+            ("wait_for_cores_to_reach_state",
+             lambda: (["run", ("run", "wait")][t.draw(2)], 0),
              ["app_id"], {}, "app"),
         ]
 
